@@ -86,6 +86,7 @@ type Params struct {
 	Gaps      []int `json:"gaps,omitempty"`  // distances to the next deliberately skipped 1-RTT packet number
 	Fast      bool  `json:"fast,omitempty"`  // scripted handshake first, random operations afterwards
 	FirstSize int   `json:"first,omitempty"` // server: size of the datagram that created the connection
+	Drain     int   `json:"drain,omitempty"` // end of history: 0 peer acknowledges everything, 1 peer falls silent for a while first
 }
 
 // Pk describes one packet the connection wants to send.
@@ -1397,6 +1398,18 @@ func (m *machine) opSend(op Op) *vf.Verdict {
 	}
 	// PackCoalescedPacket: Initial, Handshake, then 0-RTT or 1-RTT, at most one each
 	pks := append([]Pk(nil), op.Pk...)
+	if !m.p.Server && m.complete && len(m.sp[spH].order) == 0 && m.canSend(lvH) {
+		// the client's Finished is waiting in the Handshake crypto stream: the packer puts a Handshake packet
+		// in front of any 1-RTT packet of the same datagram
+		has1, hasH := false, false
+		for _, pk := range pks {
+			has1 = has1 || pk.L == lv1
+			hasH = hasH || pk.L == lvH
+		}
+		if has1 && !hasH {
+			pks = append(pks, Pk{L: lvH, C: 1, Sz: 80})
+		}
+	}
 	sort.SliceStable(pks, func(i, j int) bool { return pks[i].L < pks[j].L })
 	seen := map[int]bool{}
 	for _, pk := range pks {
